@@ -242,3 +242,21 @@
         }
         assert!(rd.pos == 11, "[decode_consumes_exactly_prefix_plus_value]");
     }
+
+    #[kani::proof]
+    #[kani::unwind(14)]
+    #[kani::stub(crate::error::Error::with_context, vk_with_context_stub)]
+    #[kani::stub(crate::error::Error::with_source, vk_with_source_stub)]
+    #[kani::stub(std::backtrace::Backtrace::capture, vk_bt_stub)]
+    fn code_bytes_decode_from_short_reads() {
+        let a: [u8; 3] = kani::any();
+        let mut buf = [0u8; 11];
+        buf[0] = 3;
+        buf[8] = a[0]; buf[9] = a[1]; buf[10] = a[2];
+        let mut rd = VkOneByte { data: &buf[..], pos: 0 };
+        match bytes::Bytes::decode(&mut rd) {
+            Ok(y) => { assert!(y.len() == 3 && y[0] == a[0] && y[1] == a[1] && y[2] == a[2], "[decode_fills_the_whole_value_from_a_reader_that_returns_short_reads]"); std::mem::forget(y); }
+            Err(e) => { assert!(false, "[decode_from_short_reads_is_ok]"); std::mem::forget(e); }
+        }
+        assert!(rd.pos == 11, "[decode_consumes_exactly_prefix_plus_value]");
+    }
